@@ -143,7 +143,7 @@ func TestCheck(t *testing.T) {
 	rec = mon.Open("C13")
 	defer rec.Close()
 	rec.Note("rule", "a case is one history of 2-8 goroutines x 1-3 keys driven in lock-step against one lock primitive (fifo.Mutex, fifo.Map, cmap.Mutex, lock.Context, lock.OuterCancel), with seeded parking of a caller at the verif hook points between the map look-up and the mutex operation; cmap additionally runs the two directed delete-and-release histories. An occupancy monitor shadows every critical section; FIFO grants are compared with arrival order; fifo.Map's entry count is read at idle points; cancellation and OuterCancel rules are judged from the recorded grants, cancellations and causes in virtual time. Non-trivial = at least one acquisition had to wait; distinct = distinct step list.")
-	rec.Note("require", []string{"fifo.order_checked", "fifomap.idle_len_checked", "fifomap.park.map.lock.counted", "fifomap.park.map.unlock.counted", "cmap.park.lock.lookedup", "cmap.park.rlock.lookedup", "cmap.delete_unlock_safe", "cmap.directed.waiter_confirmed", "context.cancelled_while_waiting", "context.error_holds_nothing", "outer.writer_cancelled_readers_at_grace", "outer.reader_released_before_grace", "outer.reader_blocked_by_writer", "waits", "stress.acquisitions"})
+	rec.Note("require", []string{"fifo.order_checked", "fifomap.idle_len_checked", "fifomap.park.map.lock.counted", "fifomap.park.map.unlock.counted", "cmap.park.lock.lookedup", "cmap.park.rlock.lookedup", "cmap.delete_unlock_safe", "cmap.directed.waiter_confirmed", "context.cancelled_while_waiting", "context.error_holds_nothing", "outer.writer_cancelled_readers_at_grace", "outer.reader_released_before_grace", "outer.reader_blocked_by_writer", "outer.rlock_error_holds_nothing_checked", "outer.free_lock_granted_at_once", "waits", "stress.acquisitions"})
 	ps := plans()
 	rec.Planned(len(ps))
 	for idx, pl := range ps {
@@ -865,14 +865,16 @@ func outerCancel(w *world, rng *mon.RNG) bool {
 		left     bool // removed from the occupancy monitor
 		parent   context.CancelFunc
 		mode     string // prompt: releases when told; stubborn: releases only when its context ends
+		doomed   bool   // its parent context was ended by the harness: any cause is attributable
 	}
 	type writer struct {
-		id       int
-		arrived  time.Time
-		grantSeq int64
-		granted  time.Time
-		unlock   context.CancelFunc
-		in       bool
+		id        int
+		arrived   time.Time
+		grantSeq  int64
+		granted   time.Time
+		unlock    context.CancelFunc
+		in        bool
+		expectNow bool // nobody was inside or waiting when it arrived: it must be granted without delay
 	}
 	var mu sync.Mutex
 	var seq int64
@@ -905,6 +907,35 @@ func outerCancel(w *world, rng *mon.RNG) bool {
 		}()
 	}
 	pendingReaders := 0
+	type doomedWait struct {
+		id  int
+		by  time.Time
+		got chan error
+	}
+	var doomedPending []doomedWait
+	checkDoomed := func() bool {
+		var keep []doomedWait
+		for _, d := range doomedPending {
+			select {
+			case err := <-d.got:
+				if err == nil {
+					// granted in the end: legal, but then it must be released - the harness cannot know the
+					// reader record here, so this outcome is only counted (the grant path registered it)
+					rec.Count("outer.cancelled_waiter_granted_late", 1)
+				} else {
+					rec.Count("outer.rlock_error_holds_nothing_checked", 1)
+				}
+			default:
+				if !time.Now().Before(d.by) {
+					w.violation("OuterCancel/cancelled-waiter-still-waiting", fmt.Sprintf("reader%d's context ended more than a grace period ago and every goroutine is parked, but its RLock call has still not returned", d.id))
+					return false
+				}
+				keep = append(keep, d)
+			}
+		}
+		doomedPending = keep
+		return true
+	}
 	nsteps := rng.Range(4, 18)
 	for s := 0; s < nsteps && !w.viol; s++ {
 		switch rng.Intn(6) {
@@ -912,7 +943,15 @@ func outerCancel(w *world, rng *mon.RNG) bool {
 			nextID++
 			pctx, pcancel := context.WithCancel(context.Background())
 			r := &reader{id: nextID, parent: pcancel, mode: rng.PickStr("prompt", "stubborn")}
-			w.step(fmt.Sprintf("reader%d rlock (%s)", r.id, r.mode))
+			// some callers come with a context that has already ended, or that ends while they are
+			// queued behind a writer: RLock then reports an error (and holds nothing) or grants
+			doomed := rng.Chance(1, 4)
+			r.doomed = doomed
+			pre := doomed && rng.Bool()
+			if pre {
+				pcancel()
+			}
+			w.step(fmt.Sprintf("reader%d rlock (%s) doomed=%v precancelled=%v", r.id, r.mode, doomed, pre))
 			got := make(chan error, 1)
 			mu.Lock()
 			pendingReaders++
@@ -944,12 +983,44 @@ func outerCancel(w *world, rng *mon.RNG) bool {
 				got <- err
 			}()
 			synctest.Wait()
+			if doomed && !pre {
+				// still pending (queued behind a writer)? then its context ends now
+				select {
+				case err := <-got:
+					got <- err
+				default:
+					rec.Count("outer.reader_cancelled_while_pending", 1)
+					pcancel()
+					synctest.Wait()
+				}
+			}
 			select {
 			case err := <-got:
 				if err != nil {
-					w.violation("OuterCancel/rlock-error-while-running", fmt.Sprintf("RLock returned %v while the lock is running and the caller's context is live", err))
+					if !doomed {
+						w.violation("OuterCancel/rlock-error-while-running", fmt.Sprintf("RLock returned %v while the lock is running and the caller's context is live", err))
+					} else {
+						rec.Count("outer.rlock_error_holds_nothing_checked", 1)
+					}
+				} else if doomed {
+					// granted although its context has ended: a legal outcome of the race; the reader
+					// was told to stop at once (its rctx is done) and releases
+					mu.Lock()
+					r.released = true
+					leaveLocked(r)
+					mu.Unlock()
+					r.release()
 				}
 			default:
+				if doomed {
+					// Its request is queued behind a writer that is waiting out the readers' grace period; the
+					// run loop looks at it (and at its ended context) once that writer has been granted. The
+					// statement sets no deadline for "stops waiting": bounded progress here = by the time a
+					// full grace period has passed it has returned, whether or not the writer ever unlocks.
+					rec.Count("outer.cancelled_waiter_deferred", 1)
+					doomedPending = append(doomedPending, doomedWait{id: r.id, by: time.Now().Add(grace + 1), got: got})
+					break
+				}
 				// blocked behind a writer (waiting for the grace period or inside): legal
 				mu.Lock()
 				blocked := false
@@ -994,6 +1065,21 @@ func outerCancel(w *world, rng *mon.RNG) bool {
 			mu.Lock()
 			writers = append(writers, wr)
 			mu.Unlock()
+			mu.Lock()
+			free := true
+			for _, x := range writers {
+				if x != wr && (x.grantSeq == 0 || x.in) {
+					free = false
+				}
+			}
+			for _, r := range readers {
+				if !r.released && r.rctx.Err() == nil {
+					free = false
+				}
+			}
+			free = free && pendingReaders == 0
+			mu.Unlock()
+			wr.expectNow = free
 			w.step(fmt.Sprintf("writer%d lock", wr.id))
 			go func() {
 				u := o.Lock()
@@ -1037,10 +1123,13 @@ func outerCancel(w *world, rng *mon.RNG) bool {
 			w.violation("OuterCancel/writer-with-uncancelled-reader", v)
 			return true
 		}
+		if !checkDoomed() {
+			return true
+		}
 		// judge reader cancellations
 		mu.Lock()
 		for _, r := range readers {
-			if r.doneAt.IsZero() || r.cause == nil {
+			if r.doneAt.IsZero() || r.cause == nil || r.doomed {
 				continue
 			}
 			if errors.Is(r.cause, errOuter) {
@@ -1065,6 +1154,19 @@ func outerCancel(w *world, rng *mon.RNG) bool {
 				mu.Unlock()
 				w.violation("OuterCancel/wrong-cause", fmt.Sprintf("reader%d was cancelled with cause %v instead of the configured one (it had not released and its parent is live)", r.id, r.cause))
 				return true
+			}
+		}
+		// a writer that found the lock free (every earlier holder released or reported an error) is granted at once:
+		// "an acquisition that reported an error holds nothing"
+		for _, wr := range writers {
+			if wr.expectNow && wr.arrived.Equal(time.Now()) && wr.grantSeq == 0 {
+				mu.Unlock()
+				w.violation("OuterCancel/free-lock-not-granted", fmt.Sprintf("writer%d arrived while no reader or writer held or awaited the lock, but it was not granted at once (an orphaned read hold left by a failed RLock?)", wr.id))
+				return true
+			}
+			if wr.expectNow && wr.grantSeq != 0 {
+				rec.Count("outer.free_lock_granted_at_once", 1)
+				wr.expectNow = false
 			}
 		}
 		// a writer that was granted: every reader granted before it has released or was told to stop
@@ -1128,6 +1230,9 @@ func outerCancel(w *world, rng *mon.RNG) bool {
 			w.violation("OuterCancel/writer-with-uncancelled-reader", v)
 			return true
 		}
+	}
+	if !checkDoomed() {
+		return true
 	}
 	mu.Lock()
 	for _, wr := range writers {
